@@ -77,7 +77,12 @@ macro_rules! impl_wide_float {
             impl IsValidDivisor for $ty {
                 #[inline]
                 fn is_valid_divisor(&self) -> Self {
-                    !self.cmp_eq($ty::ZERO)
+                    // Lane-wise `is_normal`, like the scalar float types: not
+                    // zero, subnormal, infinite or NaN (NaN fails both
+                    // comparisons).
+                    let abs = $ty::abs(*self);
+                    abs.cmp_ge($ty::splat($scalar::MIN_POSITIVE))
+                        & abs.cmp_lt($ty::splat($scalar::INFINITY))
                 }
             }
 
